@@ -14,7 +14,7 @@ import numpy as np
 from absn import *
 import common as C
 import c18_py2lean as T2
-from c18_run import (OBJECTS, ALPHABET, COMPACT, build, apply_op, run_traced, run_twins, table_info, is_query)
+from c18_run import (OBJECTS, ALPHABET, COMPACT, QUICK3, build, apply_op, run_traced, run_twins, table_info, is_query)
 
 PROP = 'C18'
 LEAN_MODULES = ['PMV.Props.C18']
@@ -40,7 +40,7 @@ RULE = ('a case is one history: an initial object (20 small objects over Scalar/
         'and shaped, scalar and array masks, with and without derivatives, one read-only) and a list of operations '
         'from a finite alphabet (item assignment, every in-place arithmetic/logical operator with number, ndarray and '
         'object arguments, derivative insertion/deletion, unit changes, as_readonly, shrink/unshrink, and the cached '
-        'queries); breadth-first over a compact alphabet to depth 3 (quick) / 4 (thorough; depth 3 for the six objects of the additional classes), plus random histories of '
+        'queries); breadth-first over a compact alphabet to depth 2 plus depth 3 over a 9-symbol alphabet of 14 objects (quick) / to depth 4 (thorough; depth 3 for the six objects of the additional classes), plus random histories of '
         'length up to 30 over the full alphabet; non-trivial = contains a mutator after a cached query; distinct = '
         'distinct request line')
 ASSUMPTIONS = ['a mutator step is one control-flow path of the regenerated table on which the mutator returns (or '
@@ -83,8 +83,12 @@ def nontrivial(ops):
     return False
 
 
+_OBS = {}        # (object, history) -> observation of the traced run of THIS check run (inherited by fork)
+
+
 def _req(c):
-    return run_traced(c['obj'], c['ops'])['req']
+    tr = run_traced(c['obj'], c['ops'])
+    return tr['req'], tr['obs']
 
 
 def finish(cases):
@@ -95,13 +99,19 @@ def finish(cases):
             reqs = pool.map(_req, cases, chunksize=40)
     else:
         reqs = [_req(c) for c in cases]
-    for c, r in zip(cases, reqs):
+    for c, (r, o) in zip(cases, reqs):
         c['req'] = r
+        _OBS[(c['obj'], tuple(c['ops']))] = o
         c['nontrivial'] = nontrivial(c['ops'])
     return cases
 
 
 def impl(case):
+    # the traced run that produced the request line already observed the real code; it is not repeated within the
+    # same check run (a replay, being a new process, runs it again)
+    key = (case['obj'], tuple(case['ops']))
+    if key in _OBS:
+        return _OBS[key]
     return run_traced(case['obj'], case['ops'])['obs']
 
 
@@ -114,11 +124,16 @@ def gen_cases(rng, tier):
     cases = []
     for oname in OBJECTS:
         alpha = COMPACT[oname]
-        # depth 4 in the thorough tier, except for the six objects of the additional classes (time budget)
-        depth = 4 if (thorough and oname not in DEPTH3_ONLY) else 3
-        for d in range(1, depth + 1):
-            for h in itertools.product(alpha, repeat=d):
-                if d == depth and not is_query(h[-1]):
+        if thorough:
+            # depth 4, except for the six objects of the additional classes (time budget)
+            levels = [(d, alpha) for d in range(1, (3 if oname in DEPTH3_ONLY else 4) + 1)]
+        else:
+            # quick: depth <= 2 over the compact alphabet, depth 3 over the 9-symbol QUICK3 alphabet
+            levels = [(1, alpha), (2, alpha)] + ([(3, QUICK3[oname])] if oname in QUICK3 else [])
+        deepest = levels[-1][0]
+        for d, al in levels:
+            for h in itertools.product(al, repeat=d):
+                if d == deepest and d >= 3 and not is_query(h[-1]):
                     continue        # the last step of the deepest level is a query (a mutator would go unobserved)
                 cases.append({'obj': oname, 'ops': list(h), 'kind': 'bfs%d:%s' % (d, oname)})
     nrand = 1500 if thorough else 260
